@@ -40,12 +40,16 @@ enum Op {
     ZipBox,
     FoldBox,
     CloneBox,
+    /// boxed map to an output type of the same size but lower alignment (an in-place reuse of the block must keep the layout)
+    MapBoxLow,
+    /// boxed map to a larger output type
+    MapBoxBig,
 }
 use Op::*;
 
 const ALL_OPS: &[Op] = &[
     TryFromVec, TryFromBoxSlice, VecFromGa, BoxSliceFromGa, IntoBoxedSlice, IntoVec, TryFromBoxedSliceB, TryFromVecB, TryBoxedFromIter, BoxFromIter,
-    BoxIntoIter, BoxArrRep, DefaultBoxed, GenBox, MapBox, ZipBox, FoldBox, CloneBox,
+    BoxIntoIter, BoxArrRep, DefaultBoxed, GenBox, MapBox, ZipBox, FoldBox, CloneBox, MapBoxLow, MapBoxBig,
 ];
 
 impl Op {
@@ -59,11 +63,49 @@ impl Op {
     }
     /// closure / clone / source fault points exist
     fn has_calls(self) -> bool {
-        matches!(self, TryBoxedFromIter | BoxFromIter | DefaultBoxed | GenBox | MapBox | ZipBox | FoldBox | CloneBox | BoxArrRep)
+        matches!(self, TryBoxedFromIter | BoxFromIter | DefaultBoxed | GenBox | MapBox | ZipBox | FoldBox | CloneBox | BoxArrRep | MapBoxLow | MapBoxBig)
     }
     fn parse(s: &str) -> Option<Op> {
         ALL_OPS.iter().copied().find(|o| format!("{o:?}") == s)
     }
+}
+
+/// output types for the re-typing boxed maps: same size with lower (or equal) alignment, and a larger type
+pub trait Retype: Sized {
+    type Low;
+    type Big;
+    fn low(self) -> Self::Low;
+    fn big(self) -> Self::Big;
+}
+impl Retype for u8 {
+    type Low = [u8; 1];
+    type Big = u64;
+    fn low(self) -> [u8; 1] { [self] }
+    fn big(self) -> u64 { self as u64 }
+}
+impl Retype for u64 {
+    type Low = [u32; 2];
+    type Big = u128;
+    fn low(self) -> [u32; 2] { [self as u32, (self >> 32) as u32] }
+    fn big(self) -> u128 { self as u128 }
+}
+impl Retype for Tr<0> {
+    type Low = [u8; 4];
+    type Big = (u64, u64);
+    fn low(self) -> [u8; 4] { self.id().to_le_bytes() }
+    fn big(self) -> (u64, u64) { (self.id() as u64, 7) }
+}
+impl Retype for TrZ {
+    type Low = ();
+    type Big = u8;
+    fn low(self) {}
+    fn big(self) -> u8 { 1 }
+}
+impl Retype for () {
+    type Low = ();
+    type Big = u16;
+    fn low(self) {}
+    fn big(self) -> u16 { 2 }
 }
 
 fn mk<E: Elem, N: ArrayLength>() -> GA<E, N> {
@@ -139,7 +181,7 @@ fn exact<E: Elem>(ids: &[u32]) -> Result<(), String> {
 
 /// One execution of one operation.  Everything from input construction to the last drop is
 /// recorded; only the crate operation itself runs inside the counting window.
-fn run_case<N: ArrayLength, E: Elem + Default>(op: Op, l: usize, cap: u8, fault: Fault) -> Obs {
+fn run_case<N: ArrayLength, E: Elem + Default + Retype>(op: Op, l: usize, cap: u8, fault: Fault) -> Obs {
     elems::reset_all();
     ledger::reserve(1 << 14);
     let n = N::USIZE;
@@ -412,6 +454,41 @@ fn run_case<N: ArrayLength, E: Elem + Default>(op: Op, l: usize, cap: u8, fault:
                     fail15!("with the result alive: {e}");
                 }
             });
+            ledger::set_call_bomb(None);
+            r
+        }
+        MapBoxLow | MapBoxBig => {
+            let b = Box::new(mk::<E, N>());
+            ledger::set_call_bomb(bomb);
+            let r = if op == MapBoxLow {
+                catch(|| {
+                    rec::window(|| {
+                        b.map(|a| {
+                            ledger::tick("map");
+                            a.low()
+                        })
+                    })
+                })
+                .map(|m| {
+                    if m.len() != n {
+                        fail15!("boxed map (same-size output) has {} elements", m.len());
+                    }
+                })
+            } else {
+                catch(|| {
+                    rec::window(|| {
+                        b.map(|a| {
+                            ledger::tick("map");
+                            a.big()
+                        })
+                    })
+                })
+                .map(|m| {
+                    if m.len() != n {
+                        fail15!("boxed map (larger output) has {} elements", m.len());
+                    }
+                })
+            };
             ledger::set_call_bomb(None);
             r
         }
